@@ -48,7 +48,8 @@ MANIFEST = dict(
 )
 NS = "Xmp.Wrap."
 REQUIRED = [NS + n for n in ("C15_restore", "C15_patch_frame", "C15_reset_frame", "C15_patch_in_bounds", "C15_guard_aligned",
-                             "C15_skeleton_voice", "C15_skeleton_kernel_view", "C15_skeleton", "C15_writers",
+                             "C15_voice_bounds", "C15_patch_in_bounds_wf",
+                             "C15_skeleton_shape", "C15_invloop_in_loop", "C15_skeleton_voice", "C15_skeleton_kernel_view", "C15_skeleton", "C15_writers",
                              "C15_writers_nonvacuous")]
 
 
@@ -155,6 +156,14 @@ def do_skel(ck, exe, mods, nshards, nframes, maxelems, stats):
                                                       "module": cur, "oracle": l},
                              "sample memory not restored when libxmp_mixer_softmixer returns: " + l)
                 ok = False
+            elif l.startswith("vend "):
+                stats["skel_vend"] += 1
+                if model is not None:
+                    got = model[mi] if mi < len(model) else "<missing>"
+                    mi += 1
+                    if got != "m_vend " + l.split(" | ")[1] and ok:
+                        ok = False
+                        ck.unproved("correspondence Wrap.adjustVoiceEnd vs adjust_voice_end", "%s\n%s\nmodel: %s" % (cur, l, got))
             elif l.startswith("mix "):
                 head, real = l.split(" | ")
                 f = head.split(" ")
@@ -311,9 +320,9 @@ def run(ck):
     stats = Stats()
     # 3. correspondence
     wexe = vlib.build_harness("c15_wrap", ["c15_wrap.c"])
-    do_wrap(ck, wexe, 16, 1500 if quick else 30000, stats)
+    do_wrap(ck, wexe, 16, 1500 if quick else 60000, stats)
     mods = corpus(ck, 28 if quick else 220, want_mod=4 if quick else 30)
-    do_skel(ck, wexe, mods, 16, 50 if quick else 200, 60000 if quick else 120000, stats)
+    do_skel(ck, wexe, mods, 16, 50 if quick else 400, 60000 if quick else 120000, stats)
     # 4. direct oracle
     dexe = vlib.build_harness("c15_digest", ["c15_digest.c"])
     dmods = corpus(ck, 90 if quick else 400, want_mod=12 if quick else 60)
@@ -326,7 +335,7 @@ def run(ck):
         for j in range(0, len(dmods), 3):
             dmods[j] = inv_mods[k % len(inv_mods)]
             k += 1
-    do_digest(ck, dexe, dmods, 16, 8 if quick else 80, 150 if quick else 400, stats)
+    do_digest(ck, dexe, dmods, 16, 8 if quick else 200, 150 if quick else 500, stats)
     for k, v in sorted(stats.items()):
         ck.note(k, v)
     ck.cov["rule"] = ("wrap: one case = (8/16 bit, mono/stereo, len, start<=end<=len with edges favoured, loop flag, first-loop, bidir, "
